@@ -17,6 +17,7 @@ import numbers
 import numpy as np
 
 from .. import twin
+from ..ops import plain
 from . import Monitor
 
 PARAM_OPS = {"param_set": "value", "param_min": "min", "param_max": "max"}
@@ -57,10 +58,10 @@ class ParamMonitor(Monitor):
         field = None
         k = op["op"]
         if k in PARAM_OPS and w.has("p", op.get("p")):
-            tgt, field, newv = op["p"], PARAM_OPS[k], op["value"]
+            tgt, field, newv = op["p"], PARAM_OPS[k], plain(op["value"])
         elif k == "pdict_set" and w.has("pd", op.get("pd")):
             tgt = w.m("pd", op["pd"])["keys"].get(op["key"])
-            field, newv = "value", op["value"]
+            field, newv = "value", plain(op["value"])
         for pid, p in w.pool["p"].items():
             real = triple(p)
             if pid not in self.model:
